@@ -606,7 +606,7 @@ Proof.
 Qed.
 
 (** Non-vacuity / sharpness examples in the free interpretation. *)
-Definition ex_cls (fs : list fld) (ca : bool) : cls := Cl 0 0%Z fs ca false false.
+Definition ex_cls (fs : list fld) (ca : bool) : cls := Cl 0 0%Z fs ca false false true.
 
 (** a field with hash=True, eq=False breaks the contract: the hypothesis of
     [hash_eq_contract] is needed *)
@@ -634,11 +634,11 @@ Proof. cbn. split; reflexivity. Qed.
 
 (** shallow copy of a dict instance carries the cache, of a slotted one resets it *)
 Example copy_dict_carries_cache :
-  frun (Cl 0 0%Z [F None EqT] true false false) [0] [OHash; OCopy; OHash]
+  frun (Cl 0 0%Z [F None EqT] true false false true) [0] [OHash; OCopy; OHash]
   = [MHashed (0%Z, [0]) true; MDone; MHashed (0%Z, [0]) false].
 Proof. reflexivity. Qed.
 Example copy_slotted_resets_cache :
-  frun (Cl 0 0%Z [F None EqT] true false true) [0] [OHash; OCopy; OHash]
+  frun (Cl 0 0%Z [F None EqT] true false true true) [0] [OHash; OCopy; OHash]
   = [MHashed (0%Z, [0]) true; MDone; MHashed (0%Z, [0]) true].
 Proof. reflexivity. Qed.
 
@@ -668,3 +668,10 @@ Section FromInit.
     intros c ops vs Hc Ho. apply cache_once_l; auto. unfold init; cbn. now rewrite Hc.
   Qed.
 End FromInit.
+
+(** A class without a generated [__eq__] (class-level eq=False / own __eq__ detected) still applies
+    the fields' eq keys in its generated hash. *)
+Example key_applied_without_generated_eq :
+  let c := Cl 0 0%Z [F None (EqK K0)] false false false false in
+  fcompute c [0] = fcompute c [2] /\ fcompute c [0] <> fcompute c [1].
+Proof. cbn. split; [reflexivity | discriminate]. Qed.
